@@ -5,6 +5,12 @@ HERE = os.path.dirname(os.path.dirname(os.path.abspath(__file__)))
 PROPS = [json.loads(l) for l in open(os.path.join(HERE, 'properties.jsonl'))]
 
 CLAIMED = {
+ 'C05': dict(
+   category='proof',
+   text='Layer 1: the solver invariants and exit postconditions (C01/C03/C04) are re-discharged over multiset views, i.e. for every order of attempts, drains and prompts. Layer 2: the uniqueness lemma - two states satisfying those exit postconditions for the same program, requested lines and inputs are equal in scheduled set and values - is mechanised in core Lean 4 (lemmas/StableState.lean, checked by the Lean kernel on every run, no sorry, axioms propext and Quot.sound only); each hypothesis of the lemma is tied to named solver obligations that must be discharged on the current tree. Layer 3, frames: every shipped line and the helpers it calls are pure readers (AST scan: no stores outside locals, whitelisted calls; 2 422 lines); sort_keys is used only as key= of sort/sorted; InputStore reaches its configuration only through keyed access; InputStore.__setitem__ stores exactly the text given (so a prompted value is indistinguishable from a file value); FormAccessor and ValueStore return exactly what is stored.',
+   design_ref='DESIGN 4 C05',
+   note='The step from the solver obligations to the hypotheses of the Lean lemma (reader trees for pure lines, store time for ts) is an informal abstraction, listed as an assumption; A-PURE, A-CFG (file layout/order invariance of configparser), A-BAG. Order of diagnostic lists and part-way refusals are outside the statement.',
+   technique='inductive invariants over order-abstracted state + mechanised uniqueness lemma (Lean 4) + frame obligations'),
  'C16': dict(
    category='proof',
    text='(a) Renumbering: for every line of every form that reads copies of a numbered form, symbolic execution shows the copies are read only inside canonical sums over all copies or exists-tests whose outcome does not depend on the copy number (a loop that stops at a particular copy, or a read of a fixed copy, is a refuted obligation) - except the 168 frozen Schedule B listing rows; with the Sigma-permutation lemma a renumbering changes nothing else. (c) Withholding: no line in the static read cone of total tax reads a withholding or payment input; two-copy VCs over the composed definitions of lines 25a..37 prove that one more cent of W-2 withholding, 1099 withholding, other federal withholding or estimated payments moves (34 - 37) by exactly that amount, for all solved pairs. (b) Monotonicity: two-copy VCs over the cone of total tax for larger medical expenses and larger real-estate taxes (2022, 2023).',
